@@ -33,9 +33,26 @@ def eventJ : Event → Json
 
 def exitJ (e : Exit) : Json := Json.mkObj [("code", e.code), ("traceback", e.traceback)]
 
+def stepOf (j : Json) : Except String Step := do
+  match ← raisedOf j with
+  | .ok => pure .done
+  | .raised (.app c) => pure (.app c)
+  | .raised (.other cls) => pure (.failed cls)
+  | .raised _ => throw "a step raises an application exception or another class"
+
+/-- `{"read": null | class, "syntax": [codes], "visit": stage, "visit_errors": [codes], "later": [codes], "post": stage}` -/
+def frontRunOf (j : Json) : Except String FrontRun := do
+  let read := (j.getObjValAs? String "read").toOption
+  pure { read := read, syntaxErrors := ← j.getObjValAs? (List Nat) "syntax", visit := ← j.getObjVal? "visit" >>= stepOf,
+         visitErrors := ← j.getObjValAs? (List Nat) "visit_errors", later := ← j.getObjValAs? (List Nat) "later",
+         post := ← j.getObjVal? "post" >>= stepOf }
+
 def worldOf (j : Json) : Except String World := do
   let valid ← j.getObjValAs? Bool "valid"
-  let front ← j.getObjVal? "front" >>= raisedOf
+  -- the front end's verdict: computed from the observed steps of `Parser.parse` when they are given, a parameter otherwise
+  let front ← (match j.getObjVal? "front_run" with
+    | .ok (.obj o) => do pure (frontOf (← frontRunOf (.obj o)))
+    | _ => j.getObjVal? "front" >>= raisedOf)
   let kinds ← (← j.getObjValAs? (List String) "kinds").mapM kindOf
   let gf ← j.getObjVal? "gen_fail"
   let gfl : List (String × Raised) ← (match gf with
@@ -78,7 +95,8 @@ def handle (op : String) (req : Json) : Except String Json :=
         Json.mkObj [("first", optRaisedJ (firstRaised a)), ("events", Json.arr ((eventsOf a).map eventJ).toArray)]
       | _, _ => Json.null
     pure (Json.mkObj [("exit", exitJ (exitOf st)), ("events", Json.arr ((eventsOf st).map eventJ).toArray),
-      ("stages", Json.arr (st.map stageJ).toArray), ("dom", cliDom inv w), ("api", api)])
+      ("stages", Json.arr (st.map stageJ).toArray), ("dom", cliDom inv w), ("api", api),
+      ("front", stageJ { result := w.front })])
   | "c19.spec" => do
     -- specification on the implementation's observation
     let usage ← req.getObjValAs? Bool "usage"
